@@ -30,7 +30,10 @@ def run_check(pid):
 
 
 def main():
-    ids = sys.argv[1:] or sorted(os.listdir(os.path.join(V, "seeded")))
+    args = sys.argv[1:]
+    own_only = "--own" in args          # run only the check of the property the change was written against
+    args = [a for a in args if a != "--own"]
+    ids = args or sorted(os.listdir(os.path.join(V, "seeded")))
     matrix_path = os.path.join(V, "seeded", "matrix.json")
     matrix = json.load(open(matrix_path)) if os.path.exists(matrix_path) else {}
     for mid in ids:
@@ -47,17 +50,25 @@ def main():
         try:
             mut_rc, mut_out = demo(d)
             with ThreadPoolExecutor(max_workers=10) as ex:
-                results = list(ex.map(run_check, PIDS))
+                results = list(ex.map(run_check, [meta["property"]] if own_only else PIDS))
         finally:
             sh("git checkout -- .", cwd=REPO)
         caught = {pid: rc for pid, rc, _ in results}
+        if own_only:
+            meta["own_check_run"] = {"demonstration_on_clean_tree_exit": clean_rc, "demonstration_with_change_exit": mut_rc,
+                                     "check_exit_code": caught[meta["property"]],
+                                     "violation_line": next((l[0] for pid, rc, l in results if l), None),
+                                     "how": "git -C %s apply seeded/%s/patch.diff; ./check %s (quick tier, seed 0); git checkout -- ." % (REPO, mid, meta["property"])}
+            json.dump(meta, open(os.path.join(d, "meta.json"), "w"), indent=1)
+            print(mid, "demo clean/changed = %d/%d" % (clean_rc, mut_rc), "own check exit", caught[meta["property"]], flush=True)
+            continue
         meta["runs"] = {
             "demonstration_on_clean_tree_exit": clean_rc, "demonstration_with_change_exit": mut_rc,
             "demonstration_output_with_change": mut_out,
             "how": "git -C %s apply seeded/%s/patch.diff; ./check <id> (quick tier, seed 0) for every property; git -C %s checkout -- ." % (REPO, mid, REPO),
             "check_exit_codes": caught,
             "violation_lines": {pid: l[0] for pid, rc, l in results if l},
-            "caught_by": [pid for pid in PIDS if caught[pid] == 1],
+            "caught_by": [pid for pid in PIDS if caught.get(pid) == 1],
             "own_check_catches": caught.get(meta["property"]) == 1,
         }
         json.dump(meta, open(os.path.join(d, "meta.json"), "w"), indent=1)
